@@ -497,6 +497,98 @@ pub fn run(out: &mut dyn Write, seed: u64, only: &str) -> std::io::Result<()> {
             }, v.iter().map(|x| (*x % 4) as usize).sum::<usize>())?;
         }
     }
+    // an element type whose `Ord` is coarser than identity (ordered by priority only): in sequential
+    // mode min / max / min_by / max_by / *_by_key return exactly the element std returns (the first
+    // minimal, the last maximal one) — C09
+    {
+        #[derive(Clone, Copy, Debug, PartialEq, Eq)]
+        struct Job {
+            prio: u64,
+            id: u64,
+        }
+        impl PartialOrd for Job {
+            fn partial_cmp(&self, o: &Self) -> Option<std::cmp::Ordering> {
+                Some(self.cmp(o))
+            }
+        }
+        impl Ord for Job {
+            fn cmp(&self, o: &Self) -> std::cmp::Ordering {
+                self.prio.cmp(&o.prio)
+            }
+        }
+        for &len in &[1usize, 2, 9, 40] {
+            let jobs: Vec<Job> = (0..len as u64).map(|i| Job { prio: rnd() % 4, id: i }).collect();
+            for cs in [0usize, 1, 3] {
+                let name = format!("coarse Ord len={} nt=1 cs={}", len, cs);
+                chk(out, "C09", &name, "max / min", || (jobs.par().num_threads(1).chunk_size(cs).copied().max(), jobs.par().num_threads(1).chunk_size(cs).copied().min()), (jobs.iter().copied().max(), jobs.iter().copied().min()))?;
+                chk(out, "C09", &name, "filter max / flat_map min", || (jobs.par().num_threads(1).chunk_size(cs).copied().filter(|j| j.id % 3 != 0).max(), jobs.par().num_threads(1).chunk_size(cs).flat_map(|j| vec![*j, Job { prio: j.prio, id: j.id + 100 }]).min()), (jobs.iter().copied().filter(|j| j.id % 3 != 0).max(), jobs.iter().flat_map(|j| vec![*j, Job { prio: j.prio, id: j.id + 100 }]).min()))?;
+                chk(out, "C09", &name, "max_by / min_by", || (jobs.par().num_threads(1).chunk_size(cs).copied().max_by(|a, b| a.prio.cmp(&b.prio)), jobs.par().num_threads(1).chunk_size(cs).copied().min_by(|a, b| a.prio.cmp(&b.prio))), (jobs.iter().copied().max_by(|a, b| a.prio.cmp(&b.prio)), jobs.iter().copied().min_by(|a, b| a.prio.cmp(&b.prio))))?;
+                chk(out, "C09", &name, "max_by_key / min_by_key", || (jobs.par().num_threads(1).chunk_size(cs).copied().max_by_key(|j| j.prio), jobs.par().num_threads(1).chunk_size(cs).copied().min_by_key(|j| j.prio)), (jobs.iter().copied().max_by_key(|j| j.prio), jobs.iter().copied().min_by_key(|j| j.prio)))?;
+            }
+            // parallel runs: one of the extremal elements (C03)
+            for (nt, cs) in [(2usize, 1usize), (4, 2)] {
+                let name = format!("coarse Ord len={} nt={} cs={}", len, nt, cs);
+                chk(out, "C03", &name, "max / min_by_key priorities", || (jobs.par().num_threads(nt).chunk_size(cs).copied().max().map(|j| j.prio), jobs.par().num_threads(nt).chunk_size(cs).copied().min_by_key(|j| j.prio).map(|j| j.prio)), (jobs.iter().map(|j| j.prio).max(), jobs.iter().map(|j| j.prio).min()))?;
+            }
+        }
+    }
+    // values that need dropping produced FROM plain sources (ranges, references to Copy data): every
+    // produced value is handed back or dropped exactly once, whatever the pipeline keeps (C13)
+    {
+        use std::sync::atomic::{AtomicIsize, Ordering};
+        static LIVE2: AtomicIsize = AtomicIsize::new(0);
+        struct Tr(u64);
+        impl Tr {
+            fn new(x: u64) -> Self {
+                LIVE2.fetch_add(1, Ordering::SeqCst);
+                Tr(x)
+            }
+        }
+        impl Clone for Tr {
+            fn clone(&self) -> Self {
+                Tr::new(self.0)
+            }
+        }
+        impl Drop for Tr {
+            fn drop(&mut self) {
+                LIVE2.fetch_sub(1, Ordering::SeqCst);
+            }
+        }
+        let v: Vec<u64> = (0..200u64).map(|i| i * 17 % 101).collect();
+        for (nt, cs) in [(1usize, 0usize), (0, 0), (2, 1), (3, 4), (4, 16), (8, 2)] {
+            let name = format!("droppable outputs from plain sources nt={} cs={}", nt, cs);
+            chk(out, "C13", &name, "range / slice refs: map.filter collect_vec, collect, collect_into, collect_x; filter_map; flat_map; reduce; find; count", || {
+                LIVE2.store(0, Ordering::SeqCst);
+                let mut lens = vec![];
+                {
+                    let a = (0..200usize).into_par().num_threads(nt).chunk_size(cs).map(|i| Tr::new(i as u64)).filter(|t| t.0 % 3 != 0).collect_vec();
+                    let b = v.par().num_threads(nt).chunk_size(cs).map(|x| Tr::new(*x)).filter(|t| t.0 % 2 == 0).collect();
+                    let c = v.par().num_threads(nt).chunk_size(cs).map(|x| Tr::new(*x)).filter(|t| t.0 % 5 == 0).collect_into(vec![Tr::new(1)]);
+                    let d = v.par().num_threads(nt).chunk_size(cs).map(|x| Tr::new(*x)).filter(|t| t.0 % 7 != 0).collect_x();
+                    let e = v.par().num_threads(nt).chunk_size(cs).filter_map(|x| if x % 4 == 0 { None } else { Some(Tr::new(*x)) }).filter(|t| t.0 % 3 == 0).collect_vec();
+                    let f = v.par().num_threads(nt).chunk_size(cs).flat_map(|x| vec![Tr::new(*x), Tr::new(*x + 1)]).filter(|t| t.0 % 2 == 1).collect_vec();
+                    let g = v.par().num_threads(nt).chunk_size(cs).map(|x| Tr::new(*x)).filter(|t| t.0 % 2 == 1).reduce(|p, q| if p.0 >= q.0 { p } else { q });
+                    let h = v.par().num_threads(nt).chunk_size(cs).map(|x| Tr::new(*x)).filter(|t| t.0 % 9 == 8).find(|t| t.0 > 50);
+                    let k = v.par().num_threads(nt).chunk_size(cs).map(|x| Tr::new(*x)).filter(|t| t.0 % 2 == 0).count();
+                    let m = v.par().num_threads(nt).chunk_size(cs).map(|x| Tr::new(*x)).collect_vec();
+                    let cl = m.par().num_threads(nt).chunk_size(cs).cloned().filter(|t| t.0 % 3 == 1).collect_vec();
+                    lens.extend([a.len(), orx_split_vec::PinnedVec::len(&b), c.len(), orx_split_vec::PinnedVec::len(&d), e.len(), f.len(), g.map(|t| t.0 as usize).unwrap_or(0), h.map(|t| t.0 as usize).unwrap_or(0), k, cl.len()]);
+                }
+                (lens, LIVE2.load(Ordering::SeqCst))
+            }, (vec![
+                (0..200u64).filter(|i| i % 3 != 0).count(),
+                v.iter().filter(|x| **x % 2 == 0).count(),
+                1 + v.iter().filter(|x| **x % 5 == 0).count(),
+                v.iter().filter(|x| **x % 7 != 0).count(),
+                v.iter().filter(|x| **x % 4 != 0 && **x % 3 == 0).count(),
+                v.iter().flat_map(|x| [*x, *x + 1]).filter(|t| t % 2 == 1).count(),
+                v.iter().copied().filter(|t| t % 2 == 1).max().unwrap_or(0) as usize,
+                v.iter().copied().filter(|t| t % 9 == 8).find(|t| *t > 50).unwrap_or(0) as usize,
+                v.iter().filter(|x| **x % 2 == 0).count(),
+                v.iter().filter(|x| **x % 3 == 1).count(),
+            ], 0))?;
+        }
+    }
     // nested computations judged like top-level ones: collect_into keeps the target's contents
     // (C06), Max(n) bounds the threads of the inner computation (C08)
     {
